@@ -39,8 +39,12 @@ var c18FileSets = []struct {
 	files []string
 }{
 	{"one-file", "HelloLilith.txt", []string{"HelloLilith.txt"}},
-	{"several-by-glob", "*.txt", []string{"100%d.txt", "HelloLilith.txt", "numbers.txt", "other.txt"}},
+	{"several-by-glob", "*.txt", []string{"100%d.txt", "HelloLilith.txt", "numb-bers.txt", "numbers.txt", "other.txt"}},
 	{"none-matching", "*.nothing", nil},
+	// a star in the middle whose neighbours overlap in a shorter name: numbers.txt starts with "numb" and ends
+	// with "bers.txt" but is too short to match
+	{"star-in-the-middle", "numb*bers.txt", []string{"numb-bers.txt"}},
+	{"in-a-subdirectory", "sub/*n*.txt", []string{"sub/inner.txt", "sub/nn.txt"}},
 }
 
 var c18Contents = map[string]string{
@@ -49,6 +53,11 @@ var c18Contents = map[string]string{
 	"100%d.txt":       "Hello, percent%name 3\n",
 	"other.txt":       "nothing to see <here>\nHello, caf\u00e9 na\u00efve \u20ac 7\n",
 	"keep.dat":        "bystander 99 Hello, Nobody",
+	"numb-bers.txt":   "Hello, Star 5\n",
+	"sub/inner.txt":   "deep 12 Hello, Sub\n",
+	"sub/nn.txt":      "Hello, N 8 and 9\n",
+	"sub/other.dat":   "Hello, NotSelected 1\n",
+	"sub/x.txt":       "Hello, NoLetterN... 2\n",
 }
 
 type c18Config struct {
@@ -70,6 +79,7 @@ func (c c18Config) String() string {
 func c18Populate(dir string) {
 	os.MkdirAll(dir, 0o755)
 	for n, s := range c18Contents {
+		os.MkdirAll(filepath.Dir(filepath.Join(dir, n)), 0o755)
 		os.WriteFile(filepath.Join(dir, n), []byte(s), 0o644)
 	}
 }
@@ -91,7 +101,7 @@ func stripDir(v any, dir string) any {
 func C18(r *drv.Run) {
 	r.BuildWorker()
 	r.BuildCLI()
-	r.Rule = "the built vore binary in scratch directories over the cross product {-com, -src} x 3 file sets (one file, several by glob, none matching) x {none, -json, -formatted-json} x {-json-file} x {-formatted-json-file} x {default, NEW, NOTHING, OVERWRITE} x {-no-output} x {find, replace, two statements, failing program} (thorough: all 2 304; quick: a seed-selected 300) plus 14 invalid invocations. Oracle: exit status; stdout under -json/-formatted-json is exactly one JSON document equal (after decoding) to the library's result for the same program and files, computed by a worker through RunFiles; the named JSON files likewise; replace mode honoured with NEW as default and outputs equal to the splice (directory snapshot before/after); invalid invocations, unknown modes and compile errors exit non-zero with a message and an empty snapshot diff. Non-trivial = invocation with >= 1 match whose JSON/stdout/file effects were all verified; distinct by configuration."
+	r.Rule = "the built vore binary in scratch directories over the cross product {-com, -src} x 5 file sets (one file, several by glob, none matching, a glob with the star in the middle of a name, a glob into a sub-directory) x {none, -json, -formatted-json} x {-json-file} x {-formatted-json-file} x {default, NEW, NOTHING, OVERWRITE} x {-no-output} x {find, replace, two statements, failing program} (thorough: all 3 840; quick: a seed-selected 400) plus 14 invalid invocations. Oracle: exit status; stdout under -json/-formatted-json is exactly one JSON document equal (after decoding) to the library's result for the same program and files, computed by a worker through RunFiles; the named JSON files likewise; replace mode honoured with NEW as default and outputs equal to the splice (directory snapshot before/after); invalid invocations, unknown modes and compile errors exit non-zero with a message and an empty snapshot diff. Non-trivial = invocation with >= 1 match whose JSON/stdout/file effects were all verified; distinct by configuration."
 	r.Assumptions = []string{
 		"with -no-output only exit status and file effects of the replace mode are demanded (the documentation does not say whether JSON files are still written)",
 		"zero matches / no files: exit 0 and no JSON demanded (the property's 'when there is at least one match')",
@@ -168,7 +178,7 @@ func C18(r *drv.Run) {
 			j := rng.Intn(i + 1)
 			cfgs[i], cfgs[j] = cfgs[j], cfgs[i]
 		}
-		cfgs = cfgs[:300]
+		cfgs = cfgs[:400]
 	} else {
 		r.Exhaustive = true
 	}
